@@ -55,7 +55,8 @@ func (e StdEng) Map(fn interface{}, a Tensor, opts ...FuncOpt) (retVal Tensor, e
 	var addToReuse bool
 	switch {
 	case !safe:
-		used = dataA
+		// in place on the operand's own data
+		used = a.hdr()
 		uit = ait
 	case toReuse && incr:
 		// fn is applied to a copy of a, which is then added to reuse
